@@ -144,6 +144,9 @@ func (r *drv) after(in c16.Input, raw []byte, o c16.Outcome, tables string, hash
 	if in.Expect == "accept" && !o.Accepted && !o.Panicked {
 		c.Fail("valid-rejected:"+in.Kind, "a correctly signed transaction paid by a signer was rejected", in, o.Class, "accepted")
 	}
+	if in.Expect == "reject" && o.Accepted {
+		c.Fail("accepted-invalid:"+in.Kind, "a transaction that is invalid by construction was accepted (its signer set is then meaningless)", in, o.Class, "rejected")
+	}
 	if !o.Accepted && !o.Panicked && c.Intn(4) != 0 {
 		return // the property speaks of accepted transactions; keep a sample of the others for the tie
 	}
@@ -455,6 +458,8 @@ func Run(c *hx.Ctx) {
 	r.builders()
 	// canonical over-signed sets (more signatures than M): the account is that of (keys, M)
 	d.OverSigned(1)
+	// hostile key encodings (off-curve / alternative encodings, blobs of the other scheme)
+	d.Hostile()
 	// the families in which the two derivations differ
 	r.families()
 	// rejected transactions (outside the property; a sample is kept for the tie)
